@@ -9,6 +9,7 @@
 ;; — not cmpSpec — are the oracle: where the case analysis itself is inconsistent a lemma fails.
 ;; sig intOf(String) Int
 ;; sig intOk(String) Bool
+;; sig intFormat(String) String
 ;; sig fltOf(String) Real
 ;; sig fltOk(String) Bool
 ;; sig timeOf(String, String) Int
@@ -40,6 +41,10 @@
     (ite (or (str.prefixof "0x" t) (str.prefixof "0X" t)) (intTextOk (str.substr t 2 (- (str.len t) 2)) 16 64)
     (ite (str.prefixof "0o" t) (intTextOk (str.substr t 2 (- (str.len t) 2)) 8 64)
       (intTextOk t 10 64)))))
+; the Printf format yq reprints an integer with: the notation of the text it was read from
+(define-fun intFormat ((s String)) String
+  (let ((t (noUnderscore s)))
+    (ite (or (str.prefixof "0x" t) (str.prefixof "0X" t)) "0x%X" (ite (str.prefixof "0o" t) "0o%o" "%v"))))
 (define-fun fltOf ((s String)) Real (fltOfText s))
 (define-fun fltOk ((s String)) Bool (fltTextOk s))
 (declare-fun timeOf (String String) Int)
